@@ -600,13 +600,13 @@ def raw_live(ctx: Ctx, label: str, sim, replay_base: dict, cap: int = 600) -> No
         status = getattr(resp, "status", None) if not isinstance(resp, Exception) else "raised"
         ctx.count(f"raw-live:{status}")
         if status == "raised":
-            ctx.violation({"kind": "request-raises", "phase": "handler", "family": "raw-route-without-options", "exc": out.split()[1],
+            ctx.violation({"kind": "request-raises", "phase": "handler", "family": "raw-route-missing-options", "exc": out.split()[1],
                            "handler": "/".join(str(x) for x in sh[-2:])},
                           f"[{label}] route {req} of the live tree, sent with the real handlers and no options, raised {out.split()[1]} "
                           f"({msg}) at {where} instead of answering",
                           dict(replay_base, ops=[], req=req, state="initial", raw_live=True, observed=out))
         elif status not in ("success", "failure", "unreachable", "pending"):
-            ctx.violation({"kind": "undocumented-status", "family": "raw-route-without-options", "status": str(status)},
+            ctx.violation({"kind": "undocumented-status", "family": "raw-route-missing-options", "status": str(status)},
                           f"[{label}] route {req} answered {type(resp).__name__} / status {status!r}", dict(replay_base, ops=[], req=req, state="initial"))
     ctx.case({"raw-live": label, "shapes": len(todo)}, True)
 
